@@ -153,7 +153,8 @@ def execute(spec, want_obs=False):
         if err is not None or res is None:
             break
         ck, x0 = res, res.x
-    out = {"trace": finalize(obs), "spec": spec, "n_events": len(obs.events),
+    nonfinite = any(not np.isfinite(v) for v in obs.fval.values()) or any(not np.all(np.isfinite(g)) for g in obs.gval.values())
+    out = {"trace": finalize(obs), "spec": spec, "n_events": len(obs.events), "nonfinite": bool(nonfinite),
            "err": repr(err) if err is not None else None,
            "msgs": [r.message if r is not None else None for r in results],
            "calls": dict(obs.calls)}
